@@ -6,7 +6,9 @@
 # (use it as VERIF_REPO to run the checks against the change; remove it with: git -C /repo worktree remove --force /tmp/seedc/<name>).
 set -u
 SRC=$1; NAME=$2; WT=/tmp/seedc/$NAME
-LIBS="-lsqlite3 -lm $(pkg-config --libs icu-uc icu-io icu-i18n)"
+# a demo may need the linker's --wrap for allocation-failure injection: every -Wl,--wrap=… named in meta.json is added
+WRAPS=$(grep -o -e '-Wl,--wrap=[a-z_]*' $SRC/meta.json $SRC/demo.c 2>/dev/null | sed 's/^[^:]*://' | sort -u | tr '\n' ' ')
+LIBS="-lsqlite3 -lm $(pkg-config --libs icu-uc icu-io icu-i18n) $WRAPS"
 rm -rf $WT; git -C /repo worktree prune; mkdir -p /tmp/seedc
 git -C /repo worktree add -q --detach $WT HEAD || exit 2
 mkar() { rm -f $WT/src/.libs/libcif.a; ar rcs $WT/src/.libs/libcif.a $WT/src/.libs/*.o; }   # the checkout builds the shared library only
